@@ -769,7 +769,10 @@ class Meter(Process):
         self.handed = []
 
     def ports_schema(self):
-        return {'s': {self.parameters['var']: {'_default': 0.0, '_emit': True}}}
+        ports = {'s': {self.parameters['var']: {'_default': 0.0, '_emit': True}}}
+        if self.parameters['gen'] == 0:
+            ports['extra'] = {'e': {'_default': 0}}        # the replaced generation has a port the new one does not have
+        return ports
 
     def next_update(self, timestep, states):
         self.handed.append((L.gt(), timestep))
@@ -809,10 +812,16 @@ def check_replace_in_place(case, total=6):
     up = Upgrader({'at': case['at'], 'names': case['names'], 'new_dt': case['new_dt']})
     try:
         eng = Engine(processes={'up': up, 'cells': {'cell': dict(old)}},
-                     topology={'up': {'cells': ('cells',)}, 'cells': {'cell': {n: {'s': ('s',)} for n in old}}},
+                     topology={'up': {'cells': ('cells',)}, 'cells': {'cell': {n: {'s': ('s',), 'extra': ('extra',)} for n in old}}},
                      display_info=False, emitter='null')
         L.CUR.engine = eng
         eng.update(total)
+        # the composite the engine publishes describes the hierarchy: the wiring of every process is the one the store holds
+        pub = eng.topology.get('cells', {}).get('cell', {})
+        held = eng.state.get_topology().get('cells', {}).get('cell', {})
+        for n in ('a', 'b', 'c'):
+            if pub.get(n) != held.get(n):
+                fails.append('engine.topology wires process %s as %r, the hierarchy holds %r' % (n, pub.get(n), held.get(n)))
     except Exception as e:
         return ['scenario raised %s: %s' % (type(e).__name__, str(e)[:200])]
     entered = float(case['at'])            # the update computed at tick `at` (clock at-1) is applied at time `at`
@@ -835,6 +844,74 @@ def check_replace_in_place(case, total=6):
             fails.append('variable %s (advanced by every timestep handed to the process at %s) is %r after %s time units'
                          % (n, n, vals[n], total))
     return fails[:3]
+
+
+# ---- children nobody declared: a glob port with an empty sub-schema shows the children, not what they hold ------------------
+class KeyWatcher(Process):
+    defaults = {'timestep': 1.0}
+
+    def __init__(self, parameters=None):
+        super().__init__(parameters)
+        self.seen = []
+
+    def ports_schema(self):
+        return {'agents': {'*': {}}}
+
+    def _rec(self, what, states):
+        eng = L.CUR.engine
+        hier = strip_procs(eng.state.get_value()) if eng is not None and getattr(eng, 'state', None) is not None else None
+        self.seen.append((what, copy.deepcopy(states), sorted((hier or {}).get('agents') or {})))
+
+    def calculate_timestep(self, states):
+        self._rec('calculate_timestep', states)
+        return 1.0
+
+    def update_condition(self, timestep, states):
+        self._rec('update_condition', states)
+        return True
+
+    def next_update(self, timestep, states):
+        self._rec('next_update', states)
+        return {}
+
+
+class StateAdder(Process):
+    defaults = {'timestep': 1.0}
+
+    def __init__(self, parameters=None):
+        super().__init__(parameters)
+        self.k = 0
+
+    def ports_schema(self):
+        return {'agents': {'*': {}}}
+
+    def next_update(self, timestep, states):
+        self.k += 1
+        if self.k <= 2:
+            return {'agents': {'_add': [{'key': 'k%d' % self.k, 'state': {'owner': 'adder', 'secret': 40 + self.k}}]}}
+        return {}
+
+
+def check_undeclared_children(with_initial):
+    """a store whose children nobody declares (glob port with an empty sub-schema): children added with a state, or named in
+    the initial state, hold values no process declared -- a watcher of the store is shown the children, never their contents"""
+    L.new_trace()
+    w = KeyWatcher()
+    try:
+        eng = Engine(processes={'adder': StateAdder(), 'w': w}, topology={'adder': {'agents': ('agents',)}, 'w': {'agents': ('agents',)}},
+                     initial_state={'agents': {'k0': {'secret': 1}}} if with_initial else {}, display_info=False, emitter='null')
+        L.CUR.engine = eng
+        eng.update(4)
+    except Exception as e:
+        return ['scenario raised %s: %s' % (type(e).__name__, str(e)[:200])]
+    for what, states, kids in w.seen:
+        want = {'agents': {k: {} for k in kids}}
+        if states != want:
+            return ['%s was handed %r; its port declares no variable below the children %s, so it may be shown %r only'
+                    % (what, states, kids, want)]
+    if not any(len(kids) >= 2 for _, _, kids in w.seen):
+        return ['scenario error: the watcher never saw two children']
+    return []
 
 
 class Env(Process):
@@ -1035,7 +1112,7 @@ def main():
     if a.replay:
         rec = json.load(open(a.replay))
         h = rec['scenario']
-        fails = check_replace_in_place(h) if rec.get('kind') == 'replace' else check_inflight_views(h) if rec.get('kind') == 'inflight' else check_store_reissue(h) if rec.get('kind') == 'storereissue' else check_generate_subschema(h['how']) if rec.get('kind') == 'subschema' else check_store_entry_views() if rec.get('kind') == 'storeentry' else check_reissue(h) if rec.get('kind') == 'reissue' else check_cargo_move(h['target'], h['cargo']) if rec.get('kind') == 'cargo' else (check_moved_views(h) if rec.get('kind') == 'moved' else check_history(h, a.prop))
+        fails = check_undeclared_children(h['with_initial']) if rec.get('kind') == 'undeclared' else check_replace_in_place(h) if rec.get('kind') == 'replace' else check_inflight_views(h) if rec.get('kind') == 'inflight' else check_store_reissue(h) if rec.get('kind') == 'storereissue' else check_generate_subschema(h['how']) if rec.get('kind') == 'subschema' else check_store_entry_views() if rec.get('kind') == 'storeentry' else check_reissue(h) if rec.get('kind') == 'reissue' else check_cargo_move(h['target'], h['cargo']) if rec.get('kind') == 'cargo' else (check_moved_views(h) if rec.get('kind') == 'moved' else check_history(h, a.prop))
         L.emit_result({'status': 'reproduced' if fails else 'not-reproduced', 'failed': fails})
         return
     n = {'quick': 150, 'thorough': 5000}[a.tier]
@@ -1057,7 +1134,7 @@ def main():
             failures.append({'id': '%s.bounded.history#%d: %s' % (a.prop, i, fails[0][:260]), 'replay': rp})
             if len(failures) >= 3:
                 break
-    if a.prop == 'C07' and len(failures) < 3:
+    if a.prop in ('C07', 'C04') and len(failures) < 3:
         evaluations += 1
         fails = check_store_entry_views()
         distinct.add('store-entry-views')
@@ -1074,6 +1151,16 @@ def main():
             if fails:
                 rp = L.write_replay(a.out, a.prop, 'replace%d' % ci, case, fails, kind='replace', extra={'driver': 'bounded.struct'})
                 failures.append({'id': '%s.bounded.replace#%d: %s' % (a.prop, ci, fails[0][:260]), 'replay': rp})
+    if a.prop == 'C07':
+        for wi in (False,):          # (an initial state below an undeclared glob makes the store a leaf on the pinned tree: recorded observation)
+            if len(failures) >= 3:
+                break
+            evaluations += 1
+            fails = check_undeclared_children(wi)
+            distinct.add('undeclared-%s' % wi)
+            if fails:
+                rp = L.write_replay(a.out, a.prop, 'undeclared%d' % int(wi), {'with_initial': wi}, fails, kind='undeclared', extra={'driver': 'bounded.struct'})
+                failures.append({'id': '%s.bounded.undeclared#%d: %s' % (a.prop, int(wi), fails[0][:260]), 'replay': rp})
     if a.prop in ('C07', 'C06'):
         for ci, case in enumerate(INFLIGHT_CASES):
             if len(failures) >= 3:
